@@ -212,6 +212,43 @@ func vfH_C12_input_ack() {
 	vfC12Input([]vfShape{{1, 0, 0, 0, 0}}, []uint8{IKCP_CMD_ACK})
 }
 
+// the acknowledgement functions themselves (exact ACK, fast-ack counting, cumulative una) on TWO
+// in-flight segments, called directly: with a single segment the window tests in parse_ack /
+// parse_fastack and the early loop exits are unobservable, and the full Input on two segments is
+// too expensive for the quick tier (it runs in the thorough tier)
+func vfH_C12_ack_functions() {
+	k1, k2, _, _, z := vfPairOfStates([]vfShape{{2, 0, 0, 0, 0}}, 1, []int{1400}, 0)
+	sn, ts, una := vfU32("a_sn"), vfU32("a_ts"), vfU32("a_una")
+	fn := vfPick("fn", 0, 2)
+	// fault model as above: nothing names or passes a segment that was not transmitted yet
+	for i := 0; i < k1.snd_buf.Len(); i++ {
+		s := vfRingAt(k1.snd_buf, i)
+		if fn == 2 {
+			vfAssume(vfImplies(s.xmit == 0, _itimediff(una, s.sn) <= 0))
+		} else {
+			vfAssume(vfImplies(s.xmit == 0, _itimediff(sn, s.sn) < 0))
+		}
+	}
+	vfReach("pre")
+	switch fn {
+	case 0:
+		k1.parse_ack(sn)
+		k2.parse_ack(sn + z.ds)
+	case 1:
+		r1 := k1.parse_fastack(sn, ts)
+		r2 := k2.parse_fastack(sn+z.ds, ts+z.dt)
+		vfAssert("c12/ackfn/same-fast-ack-verdict", r1 == r2)
+	default:
+		c1 := k1.parse_una(una)
+		c2 := k2.parse_una(una + z.ds)
+		vfAssert("c12/ackfn/same-number-removed", c1 == c2)
+		k1.shrink_buf()
+		k2.shrink_buf()
+	}
+	vfReach("post")
+	vfRelated("c12/ackfn", k1, k2, z)
+}
+
 // relational queries are several times more expensive than single-copy ones: small families (quick)
 var vfShapesC12Flush = []vfShape{{1, 1, 0, 0, 1}, {0, 1, 0, 0, 2}}
 var vfShapesC12Send = []vfShape{{1, 0, 0, 0, 0}, {2, 0, 0, 0, 0}}
